@@ -128,6 +128,10 @@ def uri(value):
     return 'url(%s)' % value
 
 
+# an escape: backslash and the escaped character
+_sub_escape = re.compile(r'\\(.)', re.S).sub
+
+
 def urivalue(uri):
     """
     Return actual content without surrounding "url(" and ")"
@@ -135,9 +139,13 @@ def urivalue(uri):
     escapes of quotes, e.g.::
 
          ``url("\"")`` => ``"``
+         ``url(\")`` => ``"``
     """
     uri = uri[uri.find('(') + 1 : -1].strip()
     if uri and (uri[0] in '\'"') and (uri[0] == uri[-1]):
         return stringvalue(uri)
     else:
-        return uri
+        # not quoted, so both kinds of quotes can only be in there escaped
+        return _sub_escape(
+            lambda m: m.group(1) if m.group(1) in '\'"' else m.group(0), uri
+        )
